@@ -82,8 +82,8 @@ CHECKS = {
    note='Trusted: CrossHair/z3 string model, refreader. Symbol names and decimals could not be made solver-quantified (str-keyed tables and float() realise symbolic strings) - they are covered by corpus scripts only, i.e. by sampling; the claim for them is limited to the corpus. Mutator exceptions are counted, not violations (C04).'),
  'C16': dict(
    category='model_checking', design_ref='DESIGN.md 5 C16',
-   technique='bounded symbolic execution (CrossHair/z3) of smtlib.collect_information / get_sort / get_bv_width on generated well-sorted terms with symbolic numerals (widths, indices, extension amounts, fp sizes); generator typing validated with z3; default constants type-checked with z3',
-   text='About 200 operator/argument-kind families covering every operator the inference code knows (bit-vectors incl. indexed operators, FP, Ints/Reals, Core, Strings, Arrays, datatypes, let/quantifier binders) with operands that are variables, constants, applications of declared functions (sort unknown to ddSMT) or nested applications; numerals are symbolic integers, so one explored path covers every width/index value in range. For every subterm: inferred sort is None or the actual sort, inferred width is -1 or the actual width.',
+   technique='bounded symbolic execution (CrossHair/z3) of smtlib.collect_information / get_sort / get_bv_width on generated well-sorted terms with symbolic numerals (widths, indices, extension amounts, fp sizes); generator typing validated with z3; default constants and every same-sort replacement proposed on the generated scripts sort-checked with z3',
+   text='About 200 operator/argument-kind families covering every operator the inference code knows (bit-vectors incl. indexed operators, FP, Ints/Reals, Core, Strings, Arrays, datatypes, let/quantifier binders) with operands that are variables, constants, applications of declared functions (sort unknown to ddSMT) or nested applications; numerals are symbolic integers, so one explored path covers every width/index value in range. For every subterm: inferred sort is None or the actual sort, inferred width is -1 or the actual width. Consequence clause (conseq_*): on every generated script with concrete numerals, every proposal of Constants, ReplaceByVariable and IntroduceFreshVariable at every term position yields a script that z3 accepts as well-sorted; proposals inside the region of known finding C16-bound-symbol-out-of-scope (a binder-bound symbol offered outside its binder) are counted separately.',
    note='Trusted: CrossHair/z3; the generator typing (validated against z3 on concrete instances each run); hash shim T. Numerals 1..99 (digit count forks), repeat counts concrete. Outside: define-sort, parametric datatypes, match, deeper nesting.'),
  'C17': dict(
    category='translation_validation', design_ref='DESIGN.md 5 C17',
